@@ -1,9 +1,11 @@
 #!/bin/sh
-# Builds the whole framework offline from files on disk: Coq development (full .vo, no -vos),
+# Builds the whole framework offline from files on disk: rs2v translator + generated kernels, Coq development (full .vo, no -vos),
 # extraction, OCaml driver, Rust harness (dev + release [+ xen]) against /repo.
 set -e
 cd "$(dirname "$0")"
 export CARGO_NET_OFFLINE=true
+# kernel translator: build it and regenerate coq/Gen/*.v from the current source (docs/RS2V.md)
+python3 lib/rs2v.py
 python3 lib/glue.py
 ( cd coq && coq_makefile -f _CoqProject -o Makefile >/dev/null && timeout 7000 make -j16 >/tmp/verif-coq-build.log 2>&1 || { tail -50 /tmp/verif-coq-build.log; exit 1; } )
 python3 - <<'PY'
